@@ -27,6 +27,7 @@ pub const SLUG_IN_OWNER: &str = "class-mnemonic-owner";
 pub const SLUG_ESC_DOT: &str = "escaped-dot-in-name";
 pub const SLUG_ESC_AT: &str = "escaped-at-in-name";
 pub const SLUG_MNEMONIC_RDATA: &str = "mnemonic-as-rdata-name";
+pub const SLUG_HIGH_OCTET: &str = "high-octet-escape-in-name";
 
 /// Each worker hands at most this many violations per clause to the sink
 /// (the rest is only counted): formatting millions of them would dominate.
@@ -725,6 +726,56 @@ fn manual_cases() -> Vec<Manual> {
         clause: "at-sign-inside-longer-name".into(),
         slug: None,
     });
+    // --- an origin whose label holds an escaped octet: every relative name
+    // after it (owner, wildcard owner, `@`, names inside RDATA) hangs off that
+    // very origin
+    for (esc, shown) in [
+        ("my\\032printer", "my\\032printer"),
+        ("my\\ printer", "my\\032printer"),
+        ("tab\\009x", "tab\\009x"),
+        ("semi\\;colon", "semi;colon"),
+        ("par\\(en", "par(en"),
+        ("quo\\\"te", "quo\"te"),
+        ("back\\\\slash", "back\\\\slash"),
+        ("hi\\200gh", "hi\\200gh"),
+        ("del\\127x", "del\\127x"),
+    ] {
+        let high = esc.contains("200");
+        v.push(Manual {
+            space: "escapes-in-names",
+            text: format!(
+                "$ORIGIN {esc}.ex.\nhost 300 IN A 10.0.0.1\n@ 300 IN A 10.0.0.2\nwww 300 IN CNAME target\n*.dyn 300 IN A 10.0.0.3\n$ORIGIN sub\nleaf 300 IN MX 10 mail\n"
+            ),
+            expect: ok(dump(
+                ".",
+                None,
+                &[
+                    &format!("host.{shown}.ex. 300 {a}"),
+                    &format!("{shown}.ex. 300 A 10.0.0.2"),
+                    &format!("www.{shown}.ex. 300 CNAME target.{shown}.ex."),
+                    &format!("leaf.sub.{shown}.ex. 300 MX 10 mail.sub.{shown}.ex."),
+                ],
+                &[&format!("dyn.{shown}.ex. 300 A 10.0.0.3")],
+            )),
+            clause: "escape-in-origin".into(),
+            slug: if high { Some((SLUG_HIGH_OCTET, Expect::Err("rejected"))) } else { None },
+        });
+    }
+    // --- `\DDD` for an octet above 127 inside a name (owner, relative owner, RDATA)
+    for (text, recs) in [
+        ("hi\\200gh.ex. 300 IN A 10.0.0.1\n", vec!["hi\\200gh.ex. 300 A 10.0.0.1"]),
+        ("$ORIGIN ex.\nhi\\200gh 300 IN A 10.0.0.1\n", vec!["hi\\200gh.ex. 300 A 10.0.0.1"]),
+        ("www.ex. 300 IN CNAME hi\\255gh.ex.\n", vec!["www.ex. 300 CNAME hi\\255gh.ex."]),
+        ("\\128.ex. 300 IN A 10.0.0.1\n", vec!["\\128.ex. 300 A 10.0.0.1"]),
+    ] {
+        v.push(Manual {
+            space: "escapes-in-names",
+            text: text.to_string(),
+            expect: ok(dump(".", None, &recs, &[])),
+            clause: "escape-in-name".into(),
+            slug: Some((SLUG_HIGH_OCTET, Expect::Err("rejected"))),
+        });
+    }
     // --- a relative name inside RDATA that spells a type mnemonic
     for tc in ["300 IN ", "IN 300 ", "300 ", ""] {
         let ttl_ok = !tc.is_empty();
